@@ -296,6 +296,10 @@ def member_streams(F, S):
                         for d in nd.get("decls", []):
                             if ("var", d.get("n"), d.get("d")) == a and "init" in d:
                                 src = fn.term(d["init"])
+            from ..through import inline_single_return
+            for _ in range(2):
+                if src[0] == "call" and not src[1].endswith("FileReader::Slice"):
+                    src = inline_single_return(F, src, depth=1)
             if not (src[0] == "call" and src[1].endswith("FileReader::Slice") and len(src[3]) == 2):
                 probs.append("stream is not produced by FileReader::Slice(start, length): %s" % fmt_term(src))
         w = set()
